@@ -93,6 +93,12 @@ def node(kind, id_, parents, k0, sp):
         return f'<circle id="{id_}" cxy="{p[0]}@t" r="{a[0]}"/>', [(4, *SZ)]
     if kind == "Z":
         return f'<rect id="{id_}" {pos(a[0], a[1])} wh="{p[0]}"/>', [(9, *POS), (6, *POS)]
+    if kind == "Zd":     # own position absolute, size copied from the parent and adjusted by absolute deltas
+        return f'<rect id="{id_}" {pos(a[0], a[1])} wh="{p[0]}" dwh="{a[2]} 1"/>', [(9, *POS), (6, *POS), (3, 0, 16, 0)]
+    if kind == "Zp":     # one dimension copied from the parent and adjusted by a relative delta
+        return f'<rect id="{id_}" {pos(a[0], a[1])} width="{p[0]}" height="{a[2]}" dw="50%"/>', [(9, *POS), (6, *POS), (8, *SZ)]
+    if kind == "Zr":     # parent's size, scaled
+        return f'<rect id="{id_}" {pos(a[0], a[1])} wh="{p[0]} 50%" dh="{a[2]}"/>', [(9, *POS), (6, *POS), (3, 0, 16, 0)]
     if kind == "X":
         return f'<rect id="{id_}" x="{p[0]}~x2" y="{p[0]}~cy" {size(a[0], a[1])}/>', [(6, *SZ), (8, *SZ)]
     if kind == "S1":
@@ -140,7 +146,7 @@ def node(kind, id_, parents, k0, sp):
 
 
 N0 = ["R", "C"]
-N1 = ["H", "V", "L", "LC", "Z", "X", "S1", "U", "G", "Hd", "E", "EZ", "ER", "T", "Tc", "Tx", "PA", "PL", "CG"]
+N1 = ["H", "V", "L", "LC", "Z", "Zd", "Zp", "Zr", "X", "S1", "U", "G", "Hd", "E", "EZ", "ER", "T", "Tc", "Tx", "PA", "PL", "CG"]
 N2 = ["S2", "I2", "K", "KL", "KP"]
 SHAPES = {   # node index -> parents (indices); listed in dependency order
     "pair": [[], [0]],
@@ -194,6 +200,7 @@ def templates(tier, seed):
             tds.append(dict(fam="order", shape="chain3", kinds=["R", "H", "S1"], sp=si, perm=list(perm)))
     for kinds, shape in ((["R", "G", "S2x"], "g-surround"), (["R", "Hd", "E"], "chain3"), (["R", "G", "S1"], "chain3"), (["C", "Hd", "ER"], "chain3"), (["R", "G", "E"], "chain3"), (["R", "Hd", "EZ"], "chain3"), (["C", "L", "EZ"], "chain3"),
                          (["R", "T", "H"], "chain3"), (["R", "Tc", "L"], "chain3"), (["R", "Tx", "H"], "chain3"), (["R", "PA", "H"], "chain3"), (["R", "PA", "S1"], "chain3"),
+                         (["R", "H", "Zd"], "chain3"), (["R", "H", "Zp"], "chain3"), (["R", "V", "Zr"], "chain3"), (["C", "L", "Zd", "H"], "chain4"), (["R", "Hd", "Zp", "S1"], "chain4"),
                          (["C", "LC", "H"], "chain3"), (["R", "RU", "VS"], "chain3"), (["R", "RU", "VS", "H"], "chain4"), (["R", "CP", "GC"], "chain3"), (["R", "CP", "GC", "S1"], "chain4"), (["R", "CP", "GC", "H"], "chain4"), (["R", "CG", "H"], "chain3"), (["R", "CG", "S1"], "chain3"), (["R", "T", "S1"], "chain3"), (["R", "PL", "S1"], "chain3")):
         if shape == "g-surround":
             continue
@@ -230,7 +237,7 @@ def templates(tier, seed):
     for bad in ("unknown-id", "cycle2", "cycle3", "self", "no-bbox", "unknown-surround", "unknown-connector", "cycle-size"):
         tds.append(dict(fam="unsat", case=bad))
     if tier == "quick":
-        keep = [t for t in tds if t["fam"] == "unsat" or t.get("sysn") or t.get("kinds") in (["R", "H", "S1"], ["R", "T", "H"], ["R", "Tc", "L"], ["R", "Tx", "H"], ["R", "PA", "H"], ["R", "PA", "S1"], ["C", "LC", "H"], ["R", "RU", "VS"], ["R", "RU", "VS", "H"], ["R", "CP", "GC"], ["R", "CP", "GC", "S1"], ["R", "CP", "GC", "H"], ["R", "CG", "H"], ["R", "CG", "S1"], ["R", "T", "S1"], ["R", "PL", "S1"], ["R", "Hd", "EZ"], ["C", "L", "EZ"], ["R", "Hd", "E"], ["R", "G", "S1"], ["C", "Hd", "ER"], ["R", "G", "E"], ["R", "R", "G", "S2"])]
+        keep = [t for t in tds if t["fam"] == "unsat" or t.get("sysn") or t.get("fixed") or t.get("kinds") in (["R", "H", "S1"], ["R", "T", "H"], ["R", "Tc", "L"], ["R", "Tx", "H"], ["R", "PA", "H"], ["R", "PA", "S1"], ["C", "LC", "H"], ["R", "RU", "VS"], ["R", "RU", "VS", "H"], ["R", "CP", "GC"], ["R", "CP", "GC", "S1"], ["R", "CP", "GC", "H"], ["R", "CG", "H"], ["R", "CG", "S1"], ["R", "T", "S1"], ["R", "PL", "S1"], ["R", "Hd", "EZ"], ["C", "L", "EZ"], ["R", "Hd", "E"], ["R", "G", "S1"], ["C", "Hd", "ER"], ["R", "G", "E"], ["R", "R", "G", "S2"])]
         rest = [t for t in tds if t not in keep and not t.get("sysn")]
         tds = keep + sample_quota(rest, lambda t: (t["shape"],), {"pair": 20, "chain3": 50, "fan3": 40, "join3": 40, "chain4": 30, "diamond4": 30, "join-then4": 30, "mixed4": 30, "g-and-sibling": 0}, seed)
     return tds
